@@ -522,4 +522,29 @@ def splitAtGlue : List (Option (List Nat)) → List (List Nat)
 def spell (items : List (Option (List Nat))) : List (List Nat) :=
   (splitAtGlue items).filter (fun w => !w.isEmpty)
 
+/-! ## plain TeX's defaults (what `plain_tex_defaults()` promises) -/
+
+/-- `\sfcode` after INITEX + plain.tex (`\nonfrenchspacing`): uppercase letters 999; `)`, `'`, `]`
+0; `.`, `?`, `!` 3000; `:` 2000; `;` 1500; `,` 1250; everything else 1000. -/
+def plainSfCode (c : Nat) : Int :=
+  if 65 ≤ c ∧ c ≤ 90 then 999
+  else if c = 41 ∨ c = 39 ∨ c = 93 then 0
+  else if c = 46 ∨ c = 63 ∨ c = 33 then 3000
+  else if c = 58 then 2000
+  else if c = 59 then 1500
+  else if c = 44 then 1250
+  else 1000
+
+def plainSfCodes : List Int := (List.range 256).map plainSfCode
+
+/-- plain.tex: `\clubpenalty=150 \widowpenalty=150 \brokenpenalty=100 \interlinepenalty=0`,
+`\leftskip=\rightskip=0pt`. -/
+def plainParams : Params := { interLine := 0, club := 150, widow := 150, broken := 100 }
+
+/-- plain.tex: `\parfillskip=0pt plus 1fil`. -/
+def plainParFill : Glue := { st := 65536, so := 1 }
+
+/-- plain.tex: `\spaceskip=\xspaceskip=0pt`. -/
+def plainTextParams : TextParams := {}
+
 end C12
